@@ -34,7 +34,6 @@ pub type DealMetaArray<'bs, BS> = Array<DealState, &'bs BS>;
     ensures
         // "only by its own provider, no later than its start epoch and only in a sector that outlives it"
         r.is_ok() <==> proposal.provider == *miner_addr && curr_epoch <= proposal.start_epoch && proposal.end_epoch <= sector_expiration,
-        r.is_err() ==> r->Err_0.code == (if proposal.provider != *miner_addr { 18u32 } else if curr_epoch > proposal.start_epoch { EX_DEAL_EXPIRED.value } else { 16u32 }),
 //@ end
 
 // derive(Clone) of DealProposal re-stated in prelude/market_clone.rs (TRUSTED: a clone equals its source)
